@@ -27,8 +27,10 @@ def permutations_and_splits(run, tier, rng):
     for trial in range(60 if tier == "quick" else 600):
         D = rng.choice([1, 2, 3, 5])
         B = rng.randint(2, 7)
-        data = nprng.randint(-6, 7, size=(B, D))
-        probe = nprng.randint(-5, 6, size=(4, D)).astype(np.float64)
+        scale, offsets, dtypes = std_model.REGIMES[trial % len(std_model.REGIMES)]
+        off = np.array((offsets * 2)[:D])
+        data = nprng.randint(-6, 7, size=(B, D)) * scale + off
+        probe = (nprng.randint(-5, 6, size=(4, D)) + off).astype(np.float64)
         outs = []
         descr = []
         for variant in range(4):
@@ -41,10 +43,10 @@ def permutations_and_splits(run, tier, rng):
                 take = rng.randint(1, B - k)
                 rows = data[order[k:k + take]]
                 if take == 1 and rng.random() < 0.7:
-                    s.accumulate(rows[0].astype(rng.choice([np.float64, np.int32])))
+                    s.accumulate(rows[0].astype(rng.choice(dtypes)))
                     plan.append(("vec", order[k:k + take]))
                 else:
-                    t, axis = std_model.layout_tensor([list(map(int, r)) for r in rows], rng, rng.choice([np.float64, np.float32]))
+                    t, axis = std_model.layout_tensor([list(map(int, r)) for r in rows], rng, rng.choice(dtypes))
                     if t.ndim == 1:
                         s.accumulate(t)
                     else:
@@ -62,7 +64,8 @@ def permutations_and_splits(run, tier, rng):
             if o.tobytes() != outs[0].tobytes():
                 run.violation({"kind": "same_bag_different_transform", "data": data.tolist(), "plan_a": descr[0], "plan_b": plan})
                 break
-            if not np.allclose(o, want, rtol=1e-12, atol=1e-12):
+            tol = std_model.tolerance(st)
+            if not np.allclose(o, want, rtol=tol, atol=tol):
                 run.violation({"kind": "apply_differs_from_statistics_given", "data": data.tolist(), "plan": plan})
                 break
 
@@ -73,8 +76,9 @@ def no_stats_rule(run, tier, rng):
     for sh in shapes:
         for axis in range(-len(sh), len(sh)):
             for norm_var in (True, False):
-                for dt in (np.float64, np.float32, np.int16):
-                    x = nprng.randint(-9, 10, size=sh).astype(dt)
+                for dt, scale, off in ((np.float64, 1, 0), (np.float32, 1, 0), (np.int16, 1, 0), (np.int16, 300, 0), (np.int8, 12, 0),
+                                       (np.float64, 1, 1000), (np.float32, 1, -750), (np.int16, 1, 1000)):
+                    x = (nprng.randint(-9, 10, size=sh) * scale + off).astype(dt)
                     keep = x.copy()
                     x.flags.writeable = False
                     others = [sh[d] for d in range(len(sh)) if d != axis % len(sh)]
